@@ -291,7 +291,8 @@ def model_part(ans):
 TRUSTED = [
     "Coq 8.16.1 kernel (vm_compute only in the non-vacuity Examples)",
     "driver model C09/Model.v written by hand from SymbolFile::parse (mod.rs) and circular 0.3.0; line recogniser C09/Grammar.v "
-    "written by hand from parser.rs / nom 7.1.3 combinators; both tied to the code by the correspondence run only",
+    "with record payloads and finish()/finish_item written by hand from parser.rs / types.rs / nom 7.1.3 (range maps: C08/Model.v, record "
+    "types: C11/Model.v); all tied to the code by the correspondence run only (full symbol table text compared)",
     "circular::Buffer's contents are not modelled: data() is taken to be the input window that starts at total_consumed "
     "(FIFO contract); the harness checks the callback bytes against the input on every case",
     "extraction: ExtrOcamlBasic only; ocaml/zconv.ml + ocaml/c09|c10/main.ml; harness/src/symcase.rs (ChunkReader)",
